@@ -79,6 +79,10 @@ def programs(w) -> Any:
                                     members.append(gen.make_member(ids, rng, kind, base, is_async, npre_l,
                                                                    n_post if level == len(shape) - 1 else 0,
                                                                    n_snap if level == len(shape) - 1 else 0))
+                                    if kind not in ("init", "new") and members[-1]["decos"] and rng.random() < 0.2:
+                                        # a foreign functools.wraps decorator above the contracts: the checker is not the
+                                        # outermost object of the stack any more
+                                        members[-1]["decos"].append(["foreign", "F" + cname])
                                     if kind == "pset" or kind == "pdel":
                                         # a property needs its getter first
                                         getter = gen.make_member(ids, rng, "pget", base, False, 0, 0, 0)
